@@ -39,6 +39,11 @@ def run(ctx: core.Ctx):
             items.insert(at, ("raise", 1064))
             d.app_result("set", ncols=1, items=items, asynchronous=(at % 2 == 1))
             d.payload(("ping",))
+        # single packets larger than the write buffer, between small ones (text, field list, cursor fetch)
+        d.payload(("query",)); d.app_result("set", ncols=2, items=[("row", 20), ("row", 40000), ("row", 5), ("row", 70000)])
+        d.payload(("ping",))
+        d.payload(("query",)); d.app_result("set", ncols=1, items=[("row", 33000)])
+        d.payload(("ping",))
         d.payload(("prepare", 0)); d.payload(("execute", 0, False))
         d.app_result("set", ncols=1, items=[("row", 60)] * 600 + [("raise", None)])
         d.payload(("ping",))
